@@ -587,6 +587,20 @@ where
     fn next(&mut self) -> Option<Self::Item> {
         loop {
             if let Some(node) = self.inner.next() {
+                // The name of a node must be a plain file name. Anything else (`..`, absolute paths, names containing
+                // separators) would make the joined path point outside of the tree.
+                let name = node.name();
+                let mut components = Path::new(&name).components();
+                if !matches!(
+                    (components.next(), components.next()),
+                    (Some(Component::Normal(n)), None) if n == name
+                ) {
+                    return Some(Err(RusticError::new(
+                        ErrorKind::Unsupported,
+                        "Tree contains a node with the invalid name `{name}`. Names must be plain file names.",
+                    )
+                    .attach_context("name", node.name.clone())));
+                }
                 let path = self.path.join(node.name());
                 if self.recursive
                     && let Some(id) = node.subtree
